@@ -31,6 +31,7 @@ LawPrefix(c)   == ~Invalid(c) => \A i \in 0..(c.e - c.s) : Want(c, i + 1) => Wan
 (*    samerec: BOOLEAN, ids_distinct: BOOLEAN, ids_repeat: BOOLEAN]         *)
 (***************************************************************************)
 Clauses == {"Rejects", "Windows", "SameRecording", "IdsDistinct", "IdsDeterministic", "IdFunctionOfBounds", "InsideNonEmpty"}
+\* (InsideNonEmpty also carries the on-lattice condition for non-representable units, see StressOK)
 LLt(a, b) == LLe(a, b) /\ ~LEq(a, b)
 \* out.stress: the same call at units that are not representable (0.1, 0.3, 1/3); bounds travel as limb numbers and only
 \* order facts that no rounding can excuse are judged: every produced segment starts inside the clip, ends inside it and is
@@ -38,6 +39,12 @@ LLt(a, b) == LLe(a, b) /\ ~LEq(a, b)
 StressOK(c, r) ==
     /\ Invalid(c) <=> (r.raised = "ValueError")
     /\ r.raised = "" => /\ r.samerec /\ r.ids_distinct
+                         \* start k lies on the hop lattice: within four units in the last place of clip.start + (k-1)*hop, where the
+                         \* product and the sum are formed EXACTLY from the doubles that were passed (r.hd = the hop as a limb number);
+                         \* one multiplication and one addition in floating point stay within one such unit, a running sum does not
+                         /\ \A j \in DOMAIN r.segs :
+                               LET E == LAddMag(r.cs, IF j = 1 THEN LInt(0) ELSE LMulMag(r.hd, j - 1))
+                               IN  (j <= 32000 /\ E[2] < 32000) => LWithin(r.segs[j][1], E, LUlps4(E[2] + 1))
                          /\ \A k \in DOMAIN r.segs : /\ LLe(r.cs, r.segs[k][1])
                                                       /\ LLt(r.segs[k][1], r.segs[k][2])
                                                       /\ LLe(r.segs[k][2], r.ce)
